@@ -13,7 +13,7 @@ Reset == /\ idle' = <<>> /\ nconn' = 0
          /\ cur' = [c \in Callers |-> 0] /\ short' = [c \in Callers |-> FALSE]
          /\ want' = [c \in Callers |-> <<>>] /\ got' = [c \in Callers |-> <<>>]
          /\ res' = [c |-> "", want |-> <<>>, got |-> <<>>, err |-> FALSE] /\ nshort' = 0
-StepOps == {"Start", "ServerReply", "Read", "Timeout"}
+StepOps == {"Start", "Reply", "Timeout"}
 TStep ==
   /\ l <= Len(Trace)
   /\ l' = l + 1
@@ -24,9 +24,9 @@ TStep ==
      \/ e.op \in StepOps /\ free /\ UNCHANGED <<vars, free>>
      \/ /\ e.op \in StepOps /\ ~free /\ UNCHANGED free
         /\ \/ e.op = "Start" /\ Start(e.c, e.sh = 1, e.n) /\ cur'[e.c] = e.x /\ want'[e.c] = e.want
-           \/ e.op = "ServerReply" /\ ServerReply(e.x) /\ Head(pend[e.x]) = e.req
-           \/ e.op = "Read" /\ Read(e.c) /\ (e.fin = 1 => (res'.c = e.c /\ res'.got = e.got /\ e.err = ""))
-                            /\ (e.fin = 0 => pc'[e.c] = "wait")
+           \/ e.op = "Reply" /\ Reply(e.x) /\ Head(pend[e.x]) = e.req
+                             /\ (e.fin = 1 => (res'.c = e.c /\ res'.got = e.got /\ e.err = "" /\ pc'[e.c] # "wait"))
+                             /\ (e.fin = 0 => \E c \in Callers : pc'[c] = "wait" /\ cur'[c] = e.x)
            \/ e.op = "Timeout" /\ Timeout(e.c) /\ e.err # ""
 TInit == Init /\ l = 1 /\ free = FALSE
 TSpec == TInit /\ [][TStep]_<<vars, l, free>>
